@@ -384,12 +384,17 @@ class Run(RunBase):
                 poly = geom.ring_polygon(geom.lanelet_ring(la.left_vertices, la.right_vertices))
                 verdict = geom.shape_meets_polygon(raw, poly)
                 if verdict is not None and geom.has_circle(raw) and geom.circle_export_scale() != 1.0:
+                    # open finding: the library selects by the disc of radius r/2.  Where that disc gives another
+                    # verdict (or lies in its own don't-care band) and the library follows it, report the known
+                    # finding and continue with the library's selection.
                     v2 = geom.shape_meets_polygon(geom.exported(raw), poly)
-                    if v2 != verdict and v2 is not None and (i in got_ids) == v2:
-                        self.soft("C10/known/circle-half-radius",
-                                  f"cut-out by a circle selects lanelets by the disc of radius r/2 (open finding: "
-                                  f"Circle.shapely_object buffers by radius / 2): lanelet {i} selected={i in got_ids}")
-                        verdict = v2
+                    if v2 != verdict and (v2 is None or (i in got_ids) == v2):
+                        if (i in got_ids) != verdict:
+                            self.soft("C10/known/circle-half-radius",
+                                      f"cut-out by a circle selects lanelets by the disc of radius r/2 (open finding: "
+                                      f"Circle.shapely_object buffers by radius / 2): lanelet {i} "
+                                      f"selected={i in got_ids}")
+                        verdict = (i in got_ids) if v2 is None else v2
             if verdict is None:
                 verdict = i in got_ids  # inside the don't-care band: adopt
             if verdict:
